@@ -581,14 +581,15 @@ def run_check(modname, pid, tier, seed, replay=None, config=None):
     to_shrink = {b: v for b, v in violations.items()
                  if (v.get('origin') or [''])[0] == 'hyp'}
     if to_shrink:
-        max_calls = 300 if tier == 'quick' else 5000
-        some = dict(list(to_shrink.items())[:12])
-        out = run_tasks([dict(base, kind='shrink', buckets=some,
-                              max_calls=max_calls)], max(60, limit * 3))
-        _, res, hang = out[0]
-        if hang is None and res and res.get('ok'):
-            for b, best in res['shrunk'].items():
-                violations[b].update(best)
+        max_calls = 150 if tier == 'quick' else 5000
+        some = list(to_shrink.items())[:NSHARDS]
+        outs = run_tasks([dict(base, kind='shrink', buckets={b: v},
+                               max_calls=max_calls) for b, v in some],
+                         max(60, limit * 3))
+        for _, res, hang in outs:
+            if hang is None and res and res.get('ok'):
+                for b, best in res['shrunk'].items():
+                    violations[b].update(best)
 
     # ---- verdict lines
     printed_known = []
